@@ -293,6 +293,9 @@ def main(rep):
                "if the grid-aligned exact comparison fails, the verdict falls back to a quadrature comparison on co-prime "
                "grids with a tolerance calibrated on three correct reference implementations (a correct implementation may "
                "use geometric waiting times instead of a per-arrival threshold test)",
+               "configs flagged neigh construct every other public storage / imputer / explainer class after observation k; a "
+               "library-side re-seed of a global generator makes its later draws non-random: the law is then judged for "
+               "every fixed answer sequence over the remaining random draws",
                "the acceptance test is a threshold comparison of one uniform draw with p; thresholds are "
                "resolved to 1/M (M = 4x or 8x the denominator of p)")
     return rep.finish(
